@@ -373,6 +373,8 @@ def run(tier, seed):
     par.pmap(work_policy_unmeasured, policy_unmeasured_tasks(), stats=st, chunk=6)
     muts = mutation_tasks(tier)
     par.pmap(work_mutations, muts, stats=st, chunk=40)
+    from props import delivery as _DL
+    par.pmap(_DL.work, _DL.tasks(tier), extra=(('complete',),), stats=st, chunk=12)
     st.extra['reply_mutations'] = len(muts)
     # replay determinism: the same plan must give the same observation when executed again (and again after other executions)
     for arch, short, plan in H.pick(all_tasks, seed + 7, 60):
